@@ -7,7 +7,7 @@ pins WHICH nodes / vectors / radii each function reads.  `angle a b` is `dot a b
 identity: the Python side applies `degrees ∘ arccos ∘ clip` to it. -/
 namespace AlgoRun
 open Gen.Algo
-open Resample (showRat showRats)
+open Resample (showRat showRats rat?)
 
 def sumsq (v : List Rat) : Rat := v.foldl (fun acc x => acc + x * x) 0
 def dotR (a b : List Rat) : Rat := (List.zipWith (fun x y => x * y) a b).foldl (fun acc x => acc + x) 0
@@ -50,6 +50,18 @@ def handleLmGeo (args : List String) : String :=
         | none => "E")
     | "bif_ampl_remote" => showORs (nodes.map fun k => lm_bif_ampl_remote angleR id fuel ids pids xs ys zs k)
     | "bif_ampl_local" => showORs (nodes.map fun k => lm_bif_ampl_local angleR id ids pids xs ys zs k)
+    | "length" | "surface" | "volume" =>
+      -- the compartments `[parent, node]` of every non-root row, in row order; `pi=<rat>`, `cp=0|-1` (the `compartment_point` option)
+      let comps := (ids.zip pids).filterMap fun (i, p) => if p = -1 then none else some [p, i]
+      let pi : Rat := ((Proto.arg args "pi").bind rat?).getD 3
+      let cp := (Proto.argInt args "cp").getD (-1)
+      showORs (comps.map fun c => match what with
+        | "length" => lm_length sumsq xs ys zs c
+        | "surface" => lm_surface F sumsq pi cp xs ys zs rs c
+        | _ => lm_volume sumsq pi cp xs ys zs rs c)
+    | "section_area" =>
+      let pi : Rat := ((Proto.arg args "pi").bind rat?).getD 3
+      showORs (ids.map fun k => lm_section_area pi rs k)
     | "branch_pathlength" => onBranches fun b => lm_branch_pathlength sumsq xs ys zs b
     | "contraction" => onBranches fun b => lm_contraction F sumsq xs ys zs b
     | "taper_1" => onBranches fun b => lm_taper_1 F sumsq xs ys zs rs b
